@@ -974,16 +974,18 @@ class CallMixin:
             return sq, (lambda j: Val(f"(seq.nth {sq} {j})"))
         if lv.kind in ("list", "tuple", "set"):
             sq = f"(seqof {asV(lv)})"
-            return sq, (lambda j: Val(f"(seq.nth {sq} {j})"))
+            org0 = (lv.origin + "[*]") if getattr(lv, "origin", None) else None
+            return sq, (lambda j: Val(f"(seq.nth {sq} {j})", origin=org0))
         if lv.kind == "dict":
             sq = f"(ditems {asV(lv)})"
             return sq, (lambda j: mkS(f"(pkey (seq.nth {sq} {j}))"))
+        org = (lv.origin + "[*]") if getattr(lv, "origin", None) else None      # a member of a container rooted in an input stays rooted there (frame)
         if lv.kind == "dict_items":
             sq = f"(ditems {asV(lv)})"
-            return sq, (lambda j: PyList([mkS(f"(pkey (seq.nth {sq} {j}))"), Val(f"(pval (seq.nth {sq} {j}))")], "tuple"))
+            return sq, (lambda j: PyList([mkS(f"(pkey (seq.nth {sq} {j}))"), Val(f"(pval (seq.nth {sq} {j}))", origin=org)], "tuple"))
         if lv.kind == "dict_values":
             sq = f"(ditems {asV(lv)})"
-            return sq, (lambda j: Val(f"(pval (seq.nth {sq} {j}))"))
+            return sq, (lambda j: Val(f"(pval (seq.nth {sq} {j}))", origin=org))
         if lv.kind == "enumerate":
             sq = f"(seqof {asV(lv)})"
             return sq, (lambda j: PyList([mkI(j), Val(f"(seq.nth {sq} {j})")], "tuple"))
